@@ -276,3 +276,4 @@ def check(ctx, rep):
     shared.own_namespace_lookups(ctx, rep, "C11.NS")
     metarules.property_rebuild_forwards(ctx, rep, "C11.SRC")
     metarules.recursion_threads_guard(ctx, rep, "C11.TRANS")
+    shared.mutable_defaults(ctx, rep, "C11.STATE")
